@@ -68,11 +68,12 @@ def mk_device(kind, inp=None):
         return AnalogDevice
     if kind == "digital":
         return DigitalAnalogDevice
-    if kind in ("virt", "virt_nomod", "virt_maxseq", "virt_reuse", "virt_tightdmm"):
+    if kind in ("virt", "virt_nomod", "virt_maxseq", "virt_reuse", "virt_tightdmm", "virt_beams_rb"):
         mod = None if kind == "virt_nomod" else 20.0  # rise time 24 ns
         eom = None if mod is None else RydbergEOM(
             limiting_beam=RydbergBeam.RED, max_limiting_amp=30 * TWO_PI, intermediate_detuning=700 * TWO_PI,
-            mod_bandwidth=48.0, controlled_beams=(RydbergBeam.BLUE,), custom_buffer_time=None)
+            mod_bandwidth=48.0, controlled_beams=((RydbergBeam.RED, RydbergBeam.BLUE) if kind == "virt_beams_rb" else (RydbergBeam.BLUE,)),
+            custom_buffer_time=None)
         return VirtualDevice(
             name="virt", dimensions=2, rydberg_level=60, max_atom_num=10, max_radial_distance=50, min_atom_distance=4,
             supports_slm_mask=True, reusable_channels=(kind == "virt_reuse"),
@@ -109,6 +110,11 @@ def mk_register(kind="reg3"):
 
         lay = RegisterLayout([[0.0, 0.0], [5.0, 0.0], [0.0, 5.0], [5.0, 5.0], [10.0, 0.0], [10.0, 5.0]], slug="lay6")
         return lay.define_register(0, 2, 1, qubit_ids=("q0", "q1", "q2"))
+    if kind == "layout3d":  # a 3D register from a 3D layout, traps chosen in non-ascending order
+        from pulser.register.register_layout import RegisterLayout
+
+        lay = RegisterLayout([[0.0, 0.0, 0.0], [5.0, 0.0, 0.0], [0.0, 5.0, 0.0], [5.0, 5.0, 0.0], [0.0, 0.0, 6.0], [5.0, 0.0, 6.0]], slug="lay3d")
+        return lay.define_register(4, 1, 3, qubit_ids=("q0", "q1", "q2"))
     if kind == "regint":  # integer ids, the first one is 0 (a falsy id)
         return Register({i: REG_COORDS[k] for i, k in enumerate(("q0", "q1", "q2"))})
     if kind == "mapped3b":  # ... and with qubits={"q0": 2, "q1": 5}
@@ -116,6 +122,11 @@ def mk_register(kind="reg3"):
 
         lay = RegisterLayout([[0.0, 0.0], [5.0, 0.0], [0.0, 5.0], [5.0, 5.0], [10.0, 0.0], [10.0, 5.0]], slug="lay6")
         return lay.define_register(2, 5, qubit_ids=("q0", "q1"))
+    if kind == "mapped3full":  # ... with every qubit mapped: qubits={"q2": 5, "q0": 1, "q1": 4} (declared order q0, q1, q2)
+        from pulser.register.register_layout import RegisterLayout
+
+        lay = RegisterLayout([[0.0, 0.0], [5.0, 0.0], [0.0, 5.0], [5.0, 5.0], [10.0, 0.0], [10.0, 5.0]], slug="lay6")
+        return lay.define_register(1, 4, 5, qubit_ids=("q0", "q1", "q2"))
     if kind == "mapped3":  # the concrete register that mappable3 resolves to with qubits={"q0": 1, "q1": 4}
         from pulser.register.register_layout import RegisterLayout
 
@@ -378,6 +389,9 @@ def run_op(inp, seq, op):
 
         reg = seq.get_register()
         dm = reg.define_detuning_map({q: val(inp, w) for q, w in op[1].items()})
+        return seq.config_detuning_map(dm, op[2])
+    if n == "config_dmap_traps":  # a detuning map over TRAPS of the register's layout (also for mappable registers)
+        dm = seq._register.layout.define_detuning_map({t: val(inp, w) for t, w in op[1].items()})
         return seq.config_detuning_map(dm, op[2])
     if n == "add_dmm":
         return seq.add_dmm_detuning(mk_waveform(inp, op[2]), op[1], *( [op[3]] if len(op) > 3 else [] ))
